@@ -10,6 +10,7 @@ import CifModel.Model.Ladder
     ladder packet <flags|-> <k>             cif_packet_create, one name per flag character: n = already normalised,
                                             r = respelled (original spelling kept in a copy); the code as it is
     ladder copychar <tshape…> <k>           cif_value_copy_char onto a value of shape <tshape> (built before the window)
+    ladder deser [ <shape…> ] <k>           cif_value_deserialize of the blob of a list value (shapes without M0/M1)
     ladder names <n> <k>                    cif_loop_get_names on a stored loop with n item names (the code as it is:
                                             getNamesPinned)
   shape tokens: S (unknown/na) | C (char) | M0 | M1 (number without / with su) | [ shape* ]
@@ -43,6 +44,20 @@ mutual
         match parseShape fuel toks with
         | none => none
         | some (sh, r) => (parseShapes fuel r).map (fun (es, r') => (sh :: es, r'))
+end
+
+mutual
+  def toD : Shape → Option DShape
+    | .scalar => some .scalar
+    | .chr => some .chr
+    | .numb _ => none
+    | .lst es => (toDs es).map .lst
+  def toDs : List Shape → Option (List DShape)
+    | [] => some []
+    | e :: es =>
+      match toD e, toDs es with
+      | some a, some b => some (a :: b)
+      | _, _ => none
 end
 
 def isort (l : List Nat) : List Nat := l.foldr ins []
@@ -120,6 +135,15 @@ def handle : Handler
             let (rc, _, st) := copyChar (if k = 0 then 0 else s0.count + k) old s0
             pure (summaryW rc s0.count (st.evs.drop s0.evs.length))
       | _ => none
+  | "deser" :: rest => do                       -- top level must be a list; no numbers
+      let (sh, r) ← parseShape (rest.length + 1) rest
+      match sh, r with
+      | .lst es, [k] => do
+          let k ← k.toNat?
+          let ds ← toDs es
+          let (rc, _, st) := deserialize k ds
+          pure (summary rc st.evs)
+      | _, _ => none
   | "set" :: rest => do
       -- the target element is built first (fault-free clone of <tshape> from the empty state); the window starts after it
       let (tsh, r0) ← parseShape (rest.length + 1) rest
